@@ -29,10 +29,11 @@ pub const ALL_SPECS: &[SpecId] = &[
     SpecId::CANCUN,
     SpecId::PRAGUE,
     SpecId::OSAKA,
+    SpecId::AMSTERDAM,
 ];
 pub const MODERN_SPECS: &[SpecId] =
-    &[SpecId::LONDON, SpecId::SHANGHAI, SpecId::CANCUN, SpecId::PRAGUE, SpecId::OSAKA];
-pub const PRAGUE_SPECS: &[SpecId] = &[SpecId::PRAGUE, SpecId::OSAKA];
+    &[SpecId::LONDON, SpecId::SHANGHAI, SpecId::CANCUN, SpecId::PRAGUE, SpecId::OSAKA, SpecId::AMSTERDAM];
+pub const PRAGUE_SPECS: &[SpecId] = &[SpecId::PRAGUE, SpecId::OSAKA, SpecId::AMSTERDAM];
 
 pub fn table_addr(i: u64) -> Address {
     let mut b = [0u8; 20];
@@ -144,6 +145,7 @@ pub const CREATE2_SPECS: &[SpecId] = &[
     SpecId::CANCUN,
     SpecId::PRAGUE,
     SpecId::OSAKA,
+    SpecId::AMSTERDAM,
 ];
 
 impl Default for GenParams {
